@@ -154,26 +154,27 @@ def exProg : List TCmd :=
     { cls := "MeasureHomodyne", regs := [1], pars := [.var 1], meas := true },
     { cls := "MeasureHomodyne", regs := [0], pars := [.var 0], meas := true } ]
 
-/-- **known finding (samples under a non-default shift).**  With the whole register rotated by one
-step (`shift = 1`) instead of band-wise, the samples collected from the unrolled circuit are *not*
-placed at (band, bin) by `reshape_samples` (tags: `k`-th measurement returns `k`; band 0 should read
-`1, 3, 5`, band 1 `0, 2, 4`). -/
-theorem reshape_nondefault_shift_counterexample :
-    reshapeSamples (collectSamples (unrollProgram { exCfg with shift := .int 1 } false exProg 1 [0, 1, 2]))
-      [0, 1] [1, 2] 3 ≠ [(0, [[1, 3, 5]]), (1, [[0, 2, 4]])] := by decide
+/-- (former finding, repaired by `0f93cf1`) without the mode order read off the circuit,
+`reshape_samples` assumes the default shift: for the whole-register rotation `shift = 1` its own guess
+misplaces the samples, while the order of `get_mode_order` places them (tags: `k`-th measurement
+returns `k`; band 0 must read `1, 3, 5`, band 1 `0, 2, 4`). -/
+theorem reshape_needs_true_order_instance :
+    let circ := unrollProgram { exCfg with shift := .int 1 } false exProg 1 [0, 1, 2]
+    reshapeSamples (collectSamples circ) [0, 1] [1, 2] 3 ≠ [(0, [[1, 3, 5]]), (1, [[0, 2, 4]])] ∧
+    runSamples { exCfg with shift := .int 1 } exProg circ none = [(0, [[1, 3, 5]]), (1, [[0, 2, 4]])] := by
+  decide
 
 /-- the same program under the default shift is placed correctly -/
 theorem reshape_default_shift_instance :
     reshapeSamples (collectSamples (unrollProgram exCfg false exProg 1 [0, 1, 2])) [0, 1] [1, 2] 3 =
       [(0, [[1, 3, 5]]), (1, [[0, 2, 4]])] := by decide
 
-/-- **known finding (samples of a space-unrolled run).**  The space-unrolled circuit of a single-band
-program measures subsystems `0, 1, 2`, once each; `reshape_samples` looks for the third outcome under
-subsystem `0` again and does not find it (`IndexError` in Python, default `0` in the model). -/
-theorem reshape_space_unrolled_counterexample :
-    reshapeSamples (collectSamples (unrollProgram { exCfg with N := [2] } true
-        [{ cls := "MeasureHomodyne", regs := [0], pars := [.var 1], meas := true }] 1 [0, 1, 2, 3]))
-      [0] [2] 3 ≠ [(0, [[0, 1, 2]])] := by decide
+/-- (former finding, repaired by `0f93cf1` and `a6024bf`) samples of a space-unrolled run, two shots -/
+theorem reshape_space_unrolled_instance :
+    let cfg := { exCfg with N := [2] }
+    let prog : List TCmd := [{ cls := "MeasureHomodyne", regs := [0], pars := [.var 1], meas := true }]
+    runSamples cfg prog (unrollProgram cfg true prog 2 (List.range 7)) none = [(0, [[0, 1, 2], [3, 4, 5]])] := by
+  decide
 
 /-! ## non-vacuity -/
 
